@@ -58,8 +58,10 @@ def collect(run, rng, nworlds, nqueries, mode, thresholds_fn, quality, nsteps=(4
                     rec = mtrace.Recorder(mode)
                     ok, m = rec.call("matcher()", lambda: q.matcher(srch, srch.context(needs_current=nc)))
                     if ok:
+                        rdr = srch.reader()
+                        hot = [d for d in range(rdr.doc_count_all()) if rdr.is_deleted(d)]
                         mtrace.run_program(rec, m, rng, rng.randrange(*nsteps), thresholds=thresholds_fn(rec, m),
-                                           blockscan=quality, maxid=len(idx["docs"]))
+                                           blockscan=quality, maxid=len(idx["docs"]), hot=hot)
                     ev = rec.finish()
                     for what, cls in set(rec.notimpl):
                         NOTIMPL.setdefault((what, cls), []).append(len(trs))
